@@ -15,7 +15,7 @@ func (c *propCfg) mustReach() []string { return c.Must }
 
 var props = map[string]*propCfg{
 	"C12": {
-		Parts: []part{{Engine: "poolsim", Quick: 16000, Thorough: 400000}},
+		Parts: []part{{Engine: "poolsim", Quick: 16000, Thorough: 400000}, {Engine: "racestress", Race: true, Quick: 1600, Thorough: 40000}},
 		Rule:  "one evaluation = one simulated pool lifetime (size -1..16, 1-3 Submit*/Wait rounds, 1-4 submitters, 0..500 tasks, free/sleeping/barrier/run-me-last task bodies) under one seeded schedule; non-trivial = at least two tasks were in flight at once (or, for a 1-worker pool, at least two tasks ran); distinct = distinct hash of (scenario shape, sequence of (task id, site) scheduler choices)",
 		Must:  []string{"queue_full_submit_blocked", "all_workers_busy"},
 	},
@@ -23,7 +23,7 @@ var props = map[string]*propCfg{
 
 func init() {
 	props["C13"] = &propCfg{
-		Parts: []part{{Engine: "storesim", Quick: 24000, Thorough: 600000}},
+		Parts: []part{{Engine: "storesim", Quick: 60000, Thorough: 1500000}, {Engine: "racestress", Race: true, Quick: 1600, Thorough: 40000}},
 		Rule:  "one evaluation = one simulated history of 2..6 clients x <=5 store operations (<=24 per history) over <=4 keys with unique values, every Lock/RLock a scheduling point, checked with porcupine against a sequential map; non-trivial = at least one pair of operations of different clients overlapped (invoke/return stamped with event sequence numbers); distinct = distinct hash of (scenario shape, scheduler choice sequence)",
 		Must:  []string{"merge_overlapped", "clear_overlapped", "porcupine_ok"},
 	}
